@@ -29,7 +29,10 @@ CONSTANTS Cmds,       \* command ids
           TO,         \* response timeout (logical ticks; ms in trace validation)
           Ghost,      \* a sender that is nobody's target
           ForeignId,  \* a command id nobody issued
-          Mutant      \* "none" | "idonly" | "tgtonly" | "nounreg"
+          Mutant,     \* "none" | "idonly" | "tgtonly" | "nounreg"
+          EnqOrders   \* {} : commands are enqueued by the Enqueue action at any time;
+                      \* else a set of sequences of commands: everything is enqueued at the start
+                      \* in one of these orders (smaller state space, same queue contents)
 
 VARIABLES
   tg,         \* tg[c]: targets of command c                     (fixed per behaviour)
@@ -47,7 +50,8 @@ VARIABLES
   deadline,   \* deadline[<<c,t>>]: when the response timer of (c,t) fires
   began,      \* began[c]: clock at BeginCommit
   clock,
-  delivered   \* delivered[c]: sequence of values sent on c's callback channel
+  delivered   \* delivered[c]: number of values sent on c's callback channel (the value is Value(c)
+              \*   in the state in which Deliver(c) is taken)
 
 vars == <<tg, qof, enq, queue, commit, pc, beh, net, pending, held, result, deadline, began, clock, delivered>>
 
@@ -70,13 +74,17 @@ Emits(c, t, b) ==
   CASE b = "ok"          -> {Msg(c, t, c, t, 1, FALSE)}
     [] b = "err"         -> {Msg(c, t, c, t, 1, TRUE)}
     [] b = "dup"         -> {Msg(c, t, c, t, 1, FALSE), Msg(c, t, c, t, 2, FALSE)}
-    [] b = "late"        -> {Msg(c, t, c, t, 1, FALSE)}
+    [] b = "late"        -> {Msg(c, t, c, t, 1, FALSE)}   \* (generator: arrives after the callback)
     [] b = "foreign"     -> {Msg(ForeignId, t, c, t, 1, FALSE)}
     [] b = "wrongsender" -> {Msg(c, Ghost, c, t, 1, FALSE)}
     [] b = "crossid"     -> {Msg(Other(c), t, c, t, 1, FALSE)}
     [] b = "failreply"   -> {Msg(c, t, c, t, 1, FALSE)}   \* send reported failed, delivered anyway
+    [] b = "fastreply"   -> {Msg(c, t, c, t, 1, FALSE)}   \* (generator: arrives before SendFunc returned)
     [] OTHER             -> {}                             \* "silent", "sendfail"
 SendFails(b) == b \in {"sendfail", "failreply"}
+\* behaviours for which something happens between entering and leaving SendFunc; for the others
+\* the call of SendFunc is one step (nothing can tell the difference)
+TwoStep(b) == b \in {"fastreply", "failreply"}
 
 \* Servent.pending is keyed by CallId{Id, Target}
 Key(id, snd) ==
@@ -89,12 +97,16 @@ Put(f, k, v) == [x \in DOMAIN f \cup {k} |-> IF x = k THEN v ELSE f[x]]
 
 Init ==
   /\ tg \in Shapes /\ qof \in QueueMaps
-  /\ enq = {} /\ queue = [q \in Queues |-> <<>>] /\ commit = [q \in Queues |-> NoCmd]
+  /\ IF EnqOrders = {}
+       THEN enq = {} /\ queue = [q \in Queues |-> <<>>]
+       ELSE /\ enq = Cmds
+            /\ \E o \in EnqOrders : queue = [q \in Queues |-> SelectSeq(o, LAMBDA c : qof[c] = q)]
+  /\ commit = [q \in Queues |-> NoCmd]
   /\ pc = [p \in Pairs |-> "none"] /\ beh = [p \in Pairs |-> None]
   /\ net = {} /\ pending = <<>> /\ held = [p \in Pairs |-> NoMsg]
   /\ result = [p \in Pairs |-> NoRes] /\ deadline = [p \in Pairs |-> 0]
   /\ began = [c \in Cmds |-> 0] /\ clock = 0
-  /\ delivered = [c \in Cmds |-> <<>>]
+  /\ delivered = [c \in Cmds |-> 0]
 
 (* ---------------- callers: CommandQueue.Enqueue ---------------- *)
 Enqueue(c) ==
@@ -122,21 +134,26 @@ Register(c, t) ==
   /\ pc' = [pc EXCEPT ![<<c, t>>] = "registered"]
   /\ UNCHANGED <<tg, qof, enq, queue, commit, beh, net, held, result, deadline, began, clock, delivered>>
 
-\* s.SendFunc(cmd, receiver) is entered; the environment decides what this target will do
+\* s.SendFunc(cmd, receiver) is entered; the environment decides what this target will do.
+\* SendFunc returns nil -> select { <-call.Done | <-time.After(timeout) }; error -> unregister path
+AfterSend(c, t, b) ==
+  IF SendFails(b)
+    THEN pc' = [pc EXCEPT ![<<c, t>>] = "sffired"] /\ UNCHANGED deadline
+    ELSE /\ pc' = [pc EXCEPT ![<<c, t>>] = "waiting"]
+         /\ deadline' = [deadline EXCEPT ![<<c, t>>] = clock + TO]
+
 SendBegin(c, t, b) ==
   /\ pc[<<c, t>>] = "registered" /\ b \in Behs
   /\ beh' = [beh EXCEPT ![<<c, t>>] = b]
   /\ net' = net \cup Emits(c, t, b)
-  /\ pc' = [pc EXCEPT ![<<c, t>>] = "sending"]
-  /\ UNCHANGED <<tg, qof, enq, queue, commit, pending, held, result, deadline, began, clock, delivered>>
+  /\ IF TwoStep(b) THEN pc' = [pc EXCEPT ![<<c, t>>] = "sending"] /\ UNCHANGED deadline
+                   ELSE AfterSend(c, t, b)
+  /\ UNCHANGED <<tg, qof, enq, queue, commit, pending, held, result, began, clock, delivered>>
 
-\* SendFunc returns: nil -> select { <-call.Done | <-time.After(timeout) }; error -> unregister path
+\* SendFunc returns (two-step behaviours only)
 SendEnd(c, t) ==
   /\ pc[<<c, t>>] = "sending"
-  /\ IF SendFails(beh[<<c, t>>])
-       THEN pc' = [pc EXCEPT ![<<c, t>>] = "sffired"] /\ UNCHANGED deadline
-       ELSE /\ pc' = [pc EXCEPT ![<<c, t>>] = "waiting"]
-            /\ deadline' = [deadline EXCEPT ![<<c, t>>] = clock + TO]
+  /\ AfterSend(c, t, beh[<<c, t>>])
   /\ UNCHANGED <<tg, qof, enq, queue, commit, beh, net, pending, held, result, began, clock, delivered>>
 
 \* case <-call.Done: the blocked ProcessResponse hands over; RunCommand returns call.Response
@@ -145,7 +162,8 @@ DoneRecv(c, t) ==
   /\ result' = [result EXCEPT ![<<c, t>>] = R("reply", held[<<c, t>>])]
   /\ held' = [held EXCEPT ![<<c, t>>] = NoMsg]
   /\ pc' = [pc EXCEPT ![<<c, t>>] = "ret"]
-  /\ UNCHANGED <<tg, qof, enq, queue, commit, beh, net, pending, deadline, began, clock, delivered>>
+  /\ deadline' = [deadline EXCEPT ![<<c, t>>] = 0]
+  /\ UNCHANGED <<tg, qof, enq, queue, commit, beh, net, pending, began, clock, delivered>>
 
 \* case <-time.After(cmd.GetResponseTimeout()): call.Error = "... timed out ..."
 Timeout(c, t) ==
@@ -160,15 +178,17 @@ Unreg(c, t) ==
                 ELSE Drop(pending, Key(c, t))
   /\ result' = [result EXCEPT ![<<c, t>>] = R(IF pc[<<c, t>>] = "tofired" THEN "timeout" ELSE "senderr", NoMsg)]
   /\ pc' = [pc EXCEPT ![<<c, t>>] = "ret"]
-  /\ UNCHANGED <<tg, qof, enq, queue, commit, beh, net, held, deadline, began, clock, delivered>>
+  /\ deadline' = [deadline EXCEPT ![<<c, t>>] = 0]
+  /\ UNCHANGED <<tg, qof, enq, queue, commit, beh, net, held, began, clock, delivered>>
 
 (* ---------------- reply goroutines: Servent.ProcessResponse ---------------- *)
+\* A reply in flight may be processed at ANY later time: "late", "reordered", "while SendFunc has
+\* not returned yet" are all behaviours of this one action ("late"/"fastreply" in Behs only name,
+\* for the scenario generator, replies whose arrival time is pinned).
 \* s.mu.Lock(); call, ok := s.pending[callId]; delete(...); s.mu.Unlock(); !ok -> dropped;
 \* ok -> call.Response = res; call.Done <- empty{} (blocks until RunCommand receives)
-TimerFired(p) == pc[p] \in {"tofired", "ret"}
 PRecv(m) ==
   /\ m \in net
-  /\ (beh[<<m.tok[1], m.tok[2]>>] = "late" => TimerFired(<<m.tok[1], m.tok[2]>>))
   /\ net' = net \ {m}
   /\ LET k == Key(m.id, m.snd) IN
      IF k \in DOMAIN pending
@@ -187,9 +207,15 @@ Value(c) ==
 Deliver(c) ==
   /\ commit[qof[c]] = c
   /\ \A t \in tg[c] : pc[<<c, t>>] = "ret"
-  /\ delivered' = [delivered EXCEPT ![c] = Append(@, Value(c))]
+  /\ delivered' = [delivered EXCEPT ![c] = @ + 1]
   /\ commit' = [commit EXCEPT ![qof[c]] = NoCmd]
-  /\ UNCHANGED <<tg, qof, enq, queue, pc, beh, net, pending, held, result, deadline, began, clock>>
+  \* the goroutines and the responses map of this commit are gone: forget them (what is still on
+  \* the wire stays; a "late" reply not yet delivered keeps its mark)
+  /\ result' = [p \in Pairs |-> IF p[1] = c THEN NoRes ELSE result[p]]
+  /\ beh' = [p \in Pairs |-> IF p[1] = c /\ ~(beh[p] = "late" /\ Emits(p[1], p[2], "late") \cap net # {})
+                              THEN None ELSE beh[p]]
+  /\ began' = [began EXCEPT ![c] = 0]
+  /\ UNCHANGED <<tg, qof, enq, queue, pc, net, pending, held, deadline, clock>>
 
 (* ---------------- time ---------------- *)
 SysEnabled ==
@@ -217,26 +243,28 @@ Spec == Init /\ [][Next]_vars
 FairSpec == Spec /\ WF_vars(SysNext) /\ WF_vars(Tick)
 
 (* ---------------- properties ---------------- *)
-AllEmitted == UNION {Emits(p[1], p[2], beh[p]) : p \in {x \in Pairs : beh[x] # None}}
+AllMsgs == UNION {Emits(p[1], p[2], b) : p \in Pairs, b \in Behs}
+DeliverEnabled(c) == commit[qof[c]] = c /\ \A t \in tg[c] : pc[<<c, t>>] = "ret"
 
 \* a command completes at most once ...
-AtMostOnce == \A c \in Cmds : Len(delivered[c]) <= 1
+AtMostOnce == \A c \in Cmds : delivered[c] <= 1
 \* ... and, when nothing more can happen, exactly once
-Completion == (~SysEnabled /\ ~ENABLED Tick) => \A c \in enq : Len(delivered[c]) = 1
-ExactlyOnceLive == \A c \in Cmds : (c \in enq) ~> (Len(delivered[c]) = 1)
+Completion == (~SysEnabled /\ ~ENABLED Tick) => \A c \in enq : delivered[c] = 1
+ExactlyOnceLive == \A c \in Cmds : (c \in enq) ~> (delivered[c] = 1)
 
-\* the value: nil / single / multi by number of targets, one entry per target, each entry the
-\* target's own reply (a message it sent from t for command id c) or an error (not sent / no answer)
-OwnAnswer ==
-  \A c \in Cmds : \A i \in 1..Len(delivered[c]) :
-    LET v == delivered[c][i] IN
+\* the value handed to the callback: nil / single / multi by number of targets, one entry per
+\* target, each entry the target's own reply (a message sent by t for command id c) or an error
+\* (could not be sent / did not answer)
+ValueOK(c) ==
+  LET v == Value(c) IN
     /\ DOMAIN v.res = tg[c]
     /\ v.kind = (IF tg[c] = {} THEN "nil" ELSE IF Cardinality(tg[c]) = 1 THEN "single" ELSE "multi")
     /\ \A t \in tg[c] :
          LET r == v.res[t] IN
          \/ r.k = "senderr" /\ r.m = NoMsg /\ SendFails(beh[<<c, t>>])
          \/ r.k = "timeout" /\ r.m = NoMsg /\ ~SendFails(beh[<<c, t>>])
-         \/ r.k = "reply" /\ r.m \in AllEmitted /\ r.m.id = c /\ r.m.snd = t
+         \/ r.k = "reply" /\ r.m \in AllMsgs /\ r.m.id = c /\ r.m.snd = t
+OwnAnswer == \A c \in Cmds : DeliverEnabled(c) => ValueOK(c)
 
 \* a reply only ever reaches the call it is addressed to (command id and sender) ...
 NoCrossTalk ==
@@ -251,7 +279,7 @@ PendingAwaits ==
 \* a reply that is not addressed to a pending call changes nothing (action property)
 UnknownDropped ==
   [][\A m \in net : (PRecv(m) /\ Key(m.id, m.snd) \notin DOMAIN pending)
-        => UNCHANGED <<pending, held, pc, result, delivered>>]_vars
+        => UNCHANGED <<pending, held, pc, result, delivered, commit>>]_vars
 
 \* a command in progress is never older than its response timeout (logical time, steps take no time)
 Bounded == \A q \in Queues : commit[q] # NoCmd => clock <= began[commit[q]] + TO
